@@ -346,6 +346,23 @@ func GenOpsP(rt *rapid.T, model map[string][]byte, used *[]string, n, maxBytes, 
 			delete(model, p)
 			continue
 		}
+		if gen.Chance(rt, 5, label+"_nest") {
+			// a nested-prefix triple: A, then B leaving A early (inside what becomes an extension), then C leaving A late
+			a := GenFixedPath(rt, gen.Uniform(rt, 3, 5, label+"_nl"), label+"_na")
+			flip := func(q string, j, d int) string {
+				const hexd = "0123456789abcdef"
+				return q[:j] + string(hexd[(strings.IndexByte(hexd, q[j])+d)%16]) + q[j+1:]
+			}
+			b := flip(a, gen.Uniform(rt, 1, len(a)/2, label+"_ne"), 1+gen.Uniform(rt, 0, 13, label+"_nd"))
+			c := flip(a, gen.Uniform(rt, len(a)/2+1, len(a)-1, label+"_nt"), 1+gen.Uniform(rt, 0, 13, label+"_nc"))
+			for _, q := range []string{a, b, c} {
+				v := GenValue(rt, label+"_nv")
+				ops = append(ops, Op{Kind: "ins", Path: q, Val: fmt.Sprintf("%x", v)})
+				model[q] = v
+				*used = append(*used, q)
+			}
+			continue
+		}
 		p := GenPath(rt, *used, maxBytes, label+"_p")
 		v := GenValue(rt, label+"_v")
 		if len(live) > 0 && gen.Chance(rt, 12, label+"_twin") {
